@@ -3,7 +3,9 @@ from __future__ import annotations
 
 import ast
 
-from ..consteval import ConstEval, NotConst
+from fractions import Fraction
+
+from ..consteval import ConstEval, FuncEval, NotConst, _CallingConstEval
 from ..core import parent, AnalysisError, own_nodes, short, unparse
 from ..rules import match, dsp, live, shape
 from . import common
@@ -21,6 +23,10 @@ EXPLANATION = (
   ' (FRESH) the merging filters construct the container they push once per region, never one object shared by all regions;'
   " (PAIR-default-end) where the merging filters are not applied unconditionally the writer's finish() gives the default end to every cue that has none, not to the last list entry only;"
   ' (LINT-k) no instance field declared with a numeric type is tested by truthiness (the number 0 would count as `not set`);'
+  ' (TRAV-rec) every function that walks the tree by calling itself on the children reaches that child loop on every path (the three walkers that prune by design are tabled with the rules that decide their pruning);'
+  ' (LINT-l) no tuple / list / set display of the anchored modules lists the same computed component twice and no dict display repeats a key (a key or fingerprint built that way cannot tell apart what the missing component would have);'
+  ' (STATE-share) no assignment stores a container field of one object (a field the package updates in place) into a field of another object without copying it, so an in-place update of one object never changes another;'
+  " (ITEM-source) an object built once per item of an inner loop is filled only with values that derive from that item or do not vary with the loops, never with a value of the enclosing container standing where the item's own belongs;"
 )
 RULE_TEXT = ("one rule instance per (function, live loop), per (flattener, element kind), per writer for SEQ-end / FIN-default; "
              "distinct = distinct (rule, construct) pairs")
@@ -103,24 +109,43 @@ def check_seq_end(ctx):
                 f"add_isd must receive (isd, begin-of-this-entry, end); found {short(call)}")
         continue
       end_arg = call.args[2]
-      end_def = None
-      if isinstance(end_arg, ast.Name):
-        end_def = match.local_value(loop.body, end_arg.id)
-      else:
-        end_def = end_arg
-      if end_def is None:
-        raise AnalysisError(f"{q}: cannot find the definition of the cue end passed to add_isd (unrecognised idiom)")
-      # abstract evaluation over a 3-entry sequence
-      seqval = [(("t", 0), "isd0"), (("t", 1), "isd1"), (("t", 2), "isd2")]
+      # the statements of the loop body the end argument depends on (backward slice over top-level statements)
+      call_st = call
+      while getattr(call_st, "_parent", None) is not loop:
+        call_st = getattr(call_st, "_parent", None)
+        if call_st is None:
+          raise AnalysisError(f"{q}: add_isd call is not inside the loop body (unrecognised idiom)")
+      before = loop.body[:loop.body.index(call_st)]
+      needed = {n.id for n in ast.walk(end_arg) if isinstance(n, ast.Name)}
+      sliced = []
+      changed = True
+      while changed:
+        changed = False
+        for st in before:
+          if st in sliced:
+            continue
+          stores = {n.id for n in ast.walk(st) if isinstance(n, ast.Name) and isinstance(n.ctx, ast.Store)}
+          if stores & needed:
+            sliced.append(st)
+            needed |= {n.id for n in ast.walk(st) if isinstance(n, ast.Name)}
+            changed = True
+      sliced.sort(key=before.index)
+      end_def = ast.Module(body=sliced, type_ignores=[]) if sliced else end_arg
+      # evaluation over a 4-entry sequence whose second entry is less than a millisecond after the first
+      times = [Fraction(0), Fraction(1, 2500), Fraction(1), Fraction(5, 2)]
+      seqval = [(t, f"isd{k}") for k, t in enumerate(times)]
       ok = True
       detail = []
-      for i in range(3):
+      fe = FuncEval(ix)
+      cce = _CallingConstEval(ix, fe, f, 0)
+      for i in range(len(seqval)):
         env = {seq: seqval, idx: i, begin_v: seqval[i][0], isd_v: seqval[i][1]}
         try:
-          v = ce.ev(f.module, end_def, None, env)
+          fe._block(cce, f, sliced, env)
+          v = cce.ev(f.module, end_arg, None, env)
         except NotConst as e:
-          raise AnalysisError(f"{q}: end expression `{short(end_def)}` leaves the evaluable subset ({e})")
-        want = seqval[i + 1][0] if i + 1 < 3 else None
+          raise AnalysisError(f"{q}: the computation of the cue end `{short(end_def, 80)}` leaves the evaluable subset ({e})")
+        want = seqval[i + 1][0] if i + 1 < len(seqval) else None
         detail.append(f"i={i}: {v}")
         if v != want:
           ok = False
@@ -196,4 +221,5 @@ def run(ctx):
   for q_ in ("ttconv.srt.writer:SrtContext", "ttconv.vtt.writer:VttContext"):
     shape.check_default_end(ctx, ctx.ix.cls(q_))
   common.check_numeric_fields(ctx, common.WRITERS)
+  common.check_walkers(ctx, common.ISD_FILTERS + ["ttconv.srt.writer", "ttconv.vtt.writer"])
   common.check_history_independence(ctx, common.WRITERS + common.ISD_FILTERS + ["ttconv.isd"])
